@@ -114,7 +114,7 @@ def cases(ctx):
     cs = ctx.gen("MC_SolutionCodec", "GEN_SolutionCodec.cfg")
     for c in cs:
         c["src"] = "tlc"
-    for _ in range(20000 if ctx.thorough else 1500):
+    for _ in range(20000 if ctx.thorough else 3000):
         cs.append(_random_case(ctx.rng))
     return cs
 
